@@ -25,7 +25,7 @@ OUTSIDE = ["how close membership(tsukamoto(y)) is to y in floating point (Mode R
            "y = 0 and y = h (end points of the open interval)"]
 ASSUMPTIONS = ["0 < y < h <= 1", "documented parameter validity", "exp/log are mutually inverse (instance axioms)"]
 STUBS = []
-OB_BUDGET_S = {"quick": 150, "thorough": 2700}
+OB_BUDGET_S = {"quick": 300, "thorough": 2700}
 
 MONO = list(spec.INCREASING)
 
@@ -155,6 +155,39 @@ def ob_f_finite(name):
             ob.r.sat = 0
             ob.query_timeout_ms = 45000 if ob.tier == "quick" else 1500000
             attempt(True)
+
+    return run
+
+
+def ob_f_finite_all_heights(name="Ramp"):
+    """Mode F with the exact fp.mul / fp.div encodings over the WHOLE range of heights and degrees (subnormals included):
+    0 < y < h <= 1, end points of magnitude <= 2^100.  For Ramp the documented s + (e - s) * y / h never leaves the doubles because
+    (e - s) * y / h is bounded by |e - s| (1 + eps); an algebraically equal form that divides by h first overflows for tiny heights"""
+    def run(ob):
+        fl = install()
+        params = spec.TERMS[name][0]
+        label = f"{name}/F/finite/all-heights"
+
+        def rbody(v):
+            return "\n".join([f"t = {py_ctor(name, v)}", f"y = {lit(v['y'])}", "with np.errstate(all='ignore'): z = float(t.tsukamoto(y))",
+                              f"verdict(not math.isfinite(z), '{name}: tsukamoto(%r) = %r with height %r' % (y, z, t.height))"])
+
+        rp = replay_fn(PROPERTY, label, rbody, key=label)
+        set_mode("F", fexact=True)
+        ob.query_timeout_ms = 240000 if ob.tier == "quick" else 1500000
+        P = {k: core.var(k) for k in params}
+        h, y = core.var("h"), core.var("y")
+        pre = [z3.And(core._fin(v.f), z3.fpLEQ(z3.fpAbs(v.f), core.fv(2.0 ** 100))) for v in P.values()]
+        pre += [z3.fpGT(y.f, core.fv(0.0)), z3.fpLT(y.f, h.f), z3.fpLEQ(h.f, core.fv(1.0))]
+        ins = dict(P)
+        ins.update({"h": h, "y": y})
+        for p in ob.paths(pre, lambda: mk(fl, name, P, h).tsukamoto(y)):
+            if p.exc is not None:
+                ob.unexpected(pre, p, label, ins, rp)
+                continue
+            if ob.reachable(pre, p, label) is None:
+                continue
+            ob.prove(pre, p, core._fin(tf(p.result).f), label, ins, rp)
 
     return run
 
@@ -332,6 +365,8 @@ def _obligations(tier, seed):
         obs.append((f"{name}/R/python-floats", ob_pyfloat(name)))
         obs.append((f"{name}/R/reuse", ob_reuse(name)))
         obs.append((f"{name}/F/finite", ob_f_finite(name)))
+        if name == "Ramp":
+            obs.append((f"{name}/F/finite/all-heights", ob_f_finite_all_heights(name)))
     obs.append(("non-monotonic/refuse", ob_refuse))
     return obs
 
